@@ -150,12 +150,16 @@ def r2_additive_deposit(ctx):
 
 
 def r3_clock_and_retention(ctx):
-    """Steps are np.diff of the times with the start time prepended (they telescope to end - start), each step sees its own time_step, and non-destructive mode skips only the pixel reset (re-evaluation of C02.R4, R5, R6 on the current tree)."""
+    """Steps are np.diff of the times with the start time prepended (they telescope to end - start), each step sees its own time_step, and non-destructive mode skips only the pixel reset in both exposure runners, and every exposure installs its own start time and times (re-evaluation of C02.R1, R4, R5, R6, R7 on the current tree)."""
     from props import C02
 
     C02.r4_step_loop(ctx)
     C02.r5_what_empty_empties(ctx)
     C02.r6_clock_algebra(ctx)
+    # the steps are those of THIS exposure (set_readout installs the given start time and times on every
+    # call), and the legacy runner keeps the pixels exactly like its sibling
+    C02.r1_reject_before_model(ctx)
+    C02.r7_legacy_runner_agrees(ctx)
 
 
 def _memoised(ctx, f) -> bool:
